@@ -17,9 +17,12 @@ VARIABLES freshN,     \* number of strictly increasing heartbeat values observed
           topHb,      \* highest heartbeat value observed (0: none)
           arrivals,
           ftimes,     \* ticks of the most recent (at most Window + 2) fresh observations
-          deadEval    \* tick of the last evaluation that found x dead or unknown (-1: none)
+          deadEval,   \* tick of the last evaluation that found x dead or unknown (-1: none)
+          rep,        \* tick of the last heartbeat of x's current incarnation REPORTED to the detector (-1: none)
+          usable      \* usable intervals (two reported heartbeats at most MaxInterval apart) accepted since the
+                      \* last evaluation that found x dead or unknown
 
-dvars == <<vars, freshN, freshAt, topHb, arrivals, ftimes, deadEval>>
+dvars == <<vars, freshN, freshAt, topHb, arrivals, ftimes, deadEval, rep, usable>>
 \* ftimes / deadEval are read by C11_SteadyObs only, which is evaluated on real traces (TraceDetector,
 \* ObserveDetector), not in the exhaustive model runs: they stay out of the model's fingerprint
 DView == <<vars, freshN, freshAt, topHb, arrivals>>
@@ -27,7 +30,11 @@ DView == <<vars, freshN, freshAt, topHb, arrivals>>
 O == "n1"
 X == "x"
 
-DInit == Init /\ freshN = 0 /\ freshAt = -1 /\ topHb = 0 /\ arrivals = 0 /\ ftimes = <<>> /\ deadEval = -1
+GhostInit == freshN = 0 /\ freshAt = -1 /\ topHb = 0 /\ arrivals = 0 /\ ftimes = <<>> /\ deadEval = -1
+             /\ rep = -1 /\ usable = 0
+GhostReset == freshN' = 0 /\ freshAt' = -1 /\ topHb' = 0 /\ arrivals' = 0 /\ ftimes' = <<>> /\ deadEval' = -1
+              /\ rep' = -1 /\ usable' = 0
+DInit == Init /\ GhostInit
 
 PushTime(f, t) == IF Len(f) >= Window + 2 THEN Append(Tail(f), t) ELSE Append(f, t)
 \* ghost updates shared by the model, the trace specification and the observer
@@ -38,10 +45,17 @@ GhostArrive(h, now) ==
   /\ arrivals' = arrivals + 1
   /\ ftimes' = IF h > topHb THEN PushTime(ftimes, now) ELSE ftimes
   /\ deadEval' = deadEval
+  \* a heartbeat is reported to the detector iff the member's state exists with a non-zero heartbeat and
+  \* the new value is strictly higher (the first heartbeat of an incarnation is recorded, not reported)
+  /\ LET reported == X \in DOMAIN st[O].ns /\ st[O].ns[X].hb > 0 /\ h > st[O].ns[X].hb IN
+     /\ rep' = IF reported THEN now ELSE rep
+     /\ usable' = IF reported /\ rep >= 0 /\ now - rep <= MaxInterval THEN usable + 1 ELSE usable
 GhostEval(now) ==
   /\ UNCHANGED <<freshN, freshAt, topHb, arrivals, ftimes>>
   /\ deadEval' = IF X \in st'[O].live THEN deadEval ELSE now
-GhostSame == UNCHANGED <<freshN, freshAt, topHb, arrivals, ftimes, deadEval>>
+  /\ usable' = IF X \in st'[O].live THEN usable ELSE 0
+  /\ rep' = IF X \in DOMAIN st'[O].ns THEN rep ELSE -1
+GhostSame == UNCHANGED <<freshN, freshAt, topHb, arrivals, ftimes, deadEval, rep, usable>>
 
 SynFor(h) == [t |-> "Syn", src |-> "r", dst |-> O, cluster |-> Cluster[O],
               digest |-> [y \in {X} |-> [hb |-> h, gc |-> 0, max |-> 0]]]
@@ -78,6 +92,10 @@ C10_Complete ==
         ((freshAt < 0 \/ (clock - freshAt) * PhiD > PhiN * MaxI) => (~IsLive2 /\ (IsDead2 \/ X \notin DOMAIN st'[O].ns)))) ]_<<dvars, hist>>
 \* fewer than two usable observations: never live
 C10_TwoObservations == freshN < 2 => ~IsLive
+\* ... sharpened: "usable" observations are those of the current window epoch -- every evaluation that finds
+\* the member dead starts a fresh sampling window, so a live member has at least one interval between two
+\* reported heartbeats at most MaxInterval apart that was accepted after the last such evaluation
+C10_UsableEvidence == IsLive => usable >= 1
 
 \* C11 (i) live needs two strictly increasing heartbeat values (same ghost, stated for C11)
 C11_NeedsEvidence == IsLive => freshN >= 2
